@@ -239,6 +239,14 @@ def run(ctx):
                         sites.append(name)
         ctx.check(sites and set(sites) == {W.name}, "R13.5", "shutting-down-only-in-drain", "CommandStatus::ShuttingDown is produced only by the worker's drain arm", detail=str(sorted(set(sites))))
 
+    senders_all = set(A.send_fns)
+    ch = True
+    while ch:
+        ch = False
+        for n2, g in F.fns.items():
+            if n2 not in senders_all and any(tt.get("rpath") in senders_all for b2, tt in g.calls()):
+                senders_all.add(n2)
+                ch = True
     # ---- R13.4 no guard across a blocking send -------------------------------------------------------
     bad = []
     n = 0
@@ -250,12 +258,14 @@ def run(ctx):
             continue
         for bb, k, tgt, c in F.inst_edges(nd["id"]):
             e = site_effects(F, f, bb)
-            if "chan_send" in e["block"]:
+            # only the command queue matters for C13: a send that can wait for the command worker
+            reaches_cmd_send = bool(e["local"] & senders_all) or (c.get("callee", "").startswith("crossbeam_channel::Sender::<T>::send") and A.pair_adt and A.pair_adt in " ".join(c.get("gargs", [])))
+            if "chan_send" in e["block"] and reaches_cmd_send:
                 n += 1
                 if f.held_before_term(bb):
                     bad.append((f.name, f.where(bb), sorted(f.held_before_term(bb))))
     ctx.check(not bad and n >= 2, "R13.4", "no-guard-across-blocking-send",
-              "no lock guard is live at any call that may block on a queue send (%d such call sites)" % n, detail=str(bad[:3]))
+              "no lock guard is live at any call that may block on sending to the command queue (%d such call sites)" % n, detail=str(bad[:3]))
 
     # ---- R13.5 failed send -> Err --------------------------------------------------------------------
     for f, bb, t, m in A.send_sites:
